@@ -114,7 +114,12 @@ def bounded(ctx, b):
     procs = [(s, subprocess.Popen([sys.executable, "-c", script], env=dict(os.environ, PYTHONHASHSEED=s, PYTHONWARNINGS="ignore"),
                                   stdout=subprocess.PIPE, stderr=subprocess.PIPE, text=True)) for s in seeds]
     for s, pr in procs:
-        out, err = pr.communicate(timeout=600)
+        try:
+            out, err = pr.communicate(timeout=300)
+        except subprocess.TimeoutExpired:
+            pr.kill()
+            out, err = pr.communicate()
+            err = (err or "") + "\nno result within 300 s"
         digests[s + str(len(digests))] = json.loads(out) if pr.returncode == 0 else {"error": err[-300:]}
     first = list(digests.values())[0]
     if "error" in first:
